@@ -138,7 +138,20 @@ func (s *sessionMetadatasState) Get(id string) (api.SessionMetadatas, error) {
 func (s *sessionMetadatasState) ByClientID(clientID string) (api.SessionMetadatas, error) {
 	s.mu.Lock()
 	defer s.mu.Unlock()
-	return s.find(func(s api.SessionMetadatas) bool { return s.ClientID == clientID })
+	// several live records can share a client id while a takeover propagates (the removal of the
+	// old record and the new record travel separately): the most recently added one is the session
+	// that owns the identifier, whatever the map iteration order.
+	matches := s.filter(func(s api.SessionMetadatas) bool { return s.ClientID == clientID })
+	if len(matches) == 0 {
+		return api.SessionMetadatas{}, ErrSessionMetadatasNotFound
+	}
+	newest := matches[0]
+	for _, md := range matches[1:] {
+		if md.LastAdded > newest.LastAdded {
+			newest = md
+		}
+	}
+	return newest, nil
 }
 func (s *sessionMetadatasState) ByPeer(peer uint64) []api.SessionMetadatas {
 	s.mu.Lock()
